@@ -241,13 +241,13 @@ func (s *Seq) AppendEach(a [][]alphabet.QLetter) error {
 
 // Column returns a slice of letters reflecting the column at pos.
 func (s *Seq) Column(pos int, _ bool) []alphabet.Letter {
-	return s.Seq[pos]
+	return s.Seq[pos-s.Offset]
 }
 
 // ColumnQL returns a slice of quality letters reflecting the column at pos.
 func (s *Seq) ColumnQL(pos int, _ bool) []alphabet.QLetter {
 	c := make([]alphabet.QLetter, s.Rows())
-	for i, l := range s.Seq[pos] {
+	for i, l := range s.Seq[pos-s.Offset] {
 		c[i] = alphabet.QLetter{
 			L: l,
 			Q: seq.DefaultQphred,
@@ -263,7 +263,7 @@ func (s *Seq) Consensus(_ bool) *linear.QSeq {
 	cs := make([]alphabet.QLetter, 0, s.Len())
 	alpha := s.Alphabet()
 	for i := range s.Seq {
-		cs = append(cs, s.ColumnConsense(s, alpha, i, false))
+		cs = append(cs, s.ColumnConsense(s, alpha, s.Offset+i, false))
 	}
 
 	qs := linear.NewQSeq("Consensus:"+s.ID, cs, s.Alpha, alphabet.Sanger)
